@@ -352,6 +352,9 @@ def run_case(case):
         net.limit = case['M']
     table = {'origin%d.test' % k: '10.0.1.%d' % (10 + k) for k in range(4)}
     table.update({h: '10.0.2.%d' % (10 + k) for k, h in enumerate(ROBOTS_HOSTS)})
+    table[DOWN] = '10.0.3.1'
+    net.refuse.add(('10.0.3.1', 80))        # this host refuses every connection
+    net.refuse.add(('10.0.3.1', 443))
     # stdlib entry points of this loop only: no thread pool, no system resolver (a client that silently builds its own
     # default pool gets wpull's default Resolver)
     compat.disable_dns_python()
@@ -427,6 +430,30 @@ def run_case(case):
                     for _ in range(linger):
                         await compat._ensure(_yield_once())
                     return
+                if mode == 'poolsession':
+                    # ConnectionPool.session(): `with (yield from pool.session(host, port)) as connection:`
+                    info = Request(url).url_info
+                    cm = await compat._ensure(pool.session(info.hostname, info.port))
+                    with cm as connection:
+                        if connection.closed():
+                            connection.reset()
+                            await compat._ensure(connection.connect())
+                        for _ in range(linger):
+                            await compat._ensure(_yield_once())
+                        if 'boom' in url:
+                            raise NetworkError('injected: the with-body fails')
+                    return
+                if mode == 'client-catch':
+                    # errors of start()/download() are handled INSIDE the block, which is then left normally
+                    with client.session() as session:
+                        try:
+                            await compat._ensure(session.start(Request(url)))
+                            await compat._ensure(session.download(io.BytesIO()))
+                        except (NetworkError, ProtocolError, OSError) as e:
+                            world.fetch_errors.append((i, url, repr(e)))
+                        for _ in range(linger):
+                            await compat._ensure(_yield_once())
+                    return
                 if mode in ('client', 'client-abandon'):
                     with client.session() as session:
                         await compat._ensure(session.start(Request(url)))
@@ -454,7 +481,8 @@ def run_case(case):
                         pass                # the injected listener failure reaches the caller: fine
                     except (NetworkError, ProtocolError, OSError, ServerError) as e:
                         world.fetch_errors.append((i, url, repr(e)))
-                        scripted = mode == 'robots' and ('//r500.' in url or '//rreset.' in url)
+                        scripted = (mode == 'robots' and ('//r500.' in url or '//rreset.' in url)) or '//down.test' in url \
+                            or 'boom' in url
                         if not faulty and not fault and not scripted:
                             world.fail('error', 'fetch-failed', 'worker %s: %s failed with %r although the server behaved' % (i, url, e))
                     except asyncio.CancelledError:
@@ -507,10 +535,10 @@ def run_case(case):
                 net.clear_faults()
                 world.idle_allowed = False
                 origins = sorted({j[0].split('/')[0] + '//' + j[0].split('/')[2] for jobs in case['workers'] for j in jobs
-                                  if 'badtunnel' not in j[0] and 'garbled' not in j[0]})
+                                  if 'badtunnel' not in j[0] and 'garbled' not in j[0] and DOWN not in j[0]})
                 # origins whose tunnel can never be set up: the probe must still get its turn (and fail), not hang
                 bad = sorted({j[0].split('/')[0] + '//' + j[0].split('/')[2] for jobs in case['workers'] for j in jobs
-                              if 'badtunnel' in j[0] or 'garbled' in j[0]})
+                              if 'badtunnel' in j[0] or 'garbled' in j[0] or DOWN in j[0]})
                 probe_errors = []
 
                 async def probe():
@@ -566,6 +594,7 @@ async def _wait(task):
     await asyncio.wait([task])
 
 
+DOWN = 'down.test'
 ROBOTS_HOSTS = ('r404.test', 'r500.test', 'rredir.test', 'rredirc.test', 'rredirx.test', 'rredir2.test', 'rreset.test')
 BAD_TUNNEL = 'badtunnel.test'
 GARBLED = 'garbled.test'
@@ -603,7 +632,18 @@ def gen_case(rng, stream, faults=False):
                     fault = tuple(sorted(set(fault)))
                 if stream == 'proxy' and scheme == 'https' and rng.random() < 0.2:
                     host = rng.choice([BAD_TUNNEL, GARBLED])
-            if stream == 'session' and rng.random() < 0.25:
+            if stream == 'session' and rng.random() < 0.22:
+                r = rng.random()
+                if r < 0.5:
+                    # the pool's own context manager; 'boom' = the with-body ends with an exception
+                    mode = 'poolsession'
+                    path = '/ps%d%s' % (j, 'boom' if rng.random() < 0.5 else '')
+                else:
+                    # start() fails (the host refuses connections) and the caller handles it inside the block
+                    mode = 'client-catch'
+                    if rng.random() < 0.7:
+                        host = DOWN
+            elif stream == 'session' and rng.random() < 0.25:
                 # robots.txt fetch through RobotsTxtChecker; the host decides how /robots.txt is answered
                 mode = 'robots'
                 host = rng.choice(ROBOTS_HOSTS + ('rredir.test', 'rredirc.test', 'origin0.test'))
